@@ -254,6 +254,12 @@ pub fn check_c04(case: &RCase, log: &RunLog) -> Vec<Violation> {
     let mut out = vec![];
     // "lets the other side make progress": a future whose gate was opened (and whose waker was
     // called) must have been polled again before the runner goes quiet.
+    if log.parser_polled_after_end > 0 {
+        out.push(v(
+            "C04/parser-polled-after-end",
+            format!("the parser stream was polled {} more time(s) after it had returned None: a stream may block or panic then, so the run's termination would depend on the parser being fused", log.parser_polled_after_end),
+        ));
+    }
     if let Some(u) = &log.unresumed {
         out.push(v(
             "C04/released-future-not-resumed",
